@@ -11,6 +11,8 @@ mkdir -p "$SCR/repo" "$SCR/out"
 cp -r /repo/src "$SCR/repo/src"
 ( cd "$SCR/repo" && patch -p1 --quiet < "$PATCH" ) || { echo "patch does not apply"; rm -rf "$SCR"; exit 2; }
 cp "$HERE/known_findings.json" "$SCR/out/"
+# a change that makes an operation loop without a scheduling point is reported by the supervisor's wall-clock watchdog
+export PLSIM_STUCK_S="${PLSIM_STUCK_S:-60}"
 for P in "$@"; do
   START=$(date +%s)
   OUT=$(PLSIM_REPO="$SCR/repo" PLSIM_VERIF_DIR="$SCR/out" PLSIM_WALL_CAP_S="${PLSIM_WALL_CAP_S:-300}" "$HERE/check" "$P" --tier "${TIER:-quick}" 2>&1)
